@@ -32,8 +32,8 @@ RULE = ('one run = 2-4 committer tasks doing read-modify-write on shared '
         'conflicting client can commit afterwards; non-trivial = >= 2 '
         'commits on a shared cell and >= 1 switch; distinct = schedule '
         'trace hash')
-BUDGET = {'quick': {'runs': 2400, 'wall': 300, 'chunk': 20},
-          'thorough': {'runs': 100000, 'wall': 3000, 'chunk': 50}}
+BUDGET = {'quick': {'runs': 6000, 'wall': 300, 'chunk': 20},
+          'thorough': {'runs': 450000, 'wall': 1800, 'chunk': 100}}
 ASSUMPTIONS = [
     'conflict resolution results are judged by C10; here a merging class '
     'only has to keep every token of both sides',
